@@ -255,7 +255,7 @@ class C17(Profile):
     probes = ['corruption_at_depth>=3', 'corruption_in_extension', 'corruption_in_embedded_object', 'stored_file_corrupted',
               'saved_bundle_corrupted', 'stream_input', 'call_raised_library_error', 'call_returned', 'atomicity_checked_store',
               'atomicity_checked_registry', 'list_add_prefix_checked', 'multi_site_corruption', 'observed_data_member_corrupted', 'two_toplevel_extensions',
-              'deep_nesting_injected', 'type_registered_after_first_parse']
+              'deep_nesting_injected', 'type_registered_after_first_parse', 'failing_type_registration']
     rule = ('plans: 30-80 calls; each takes a valid object (every SDO/SRO type of both versions, 2.1 SCOs, SCOs with nested extensions, 2.0 '
             'observed-data with members, marking definitions, language-content), applies 1-3 wrong-kind replacements at plan-chosen sites of any '
             'depth (incl. values nested 120-800 levels), and delivers it through one of 16 entry points (parse of dict/text/stream, constructor, new_version, Bundle, '
@@ -269,7 +269,7 @@ class C17(Profile):
     components = dict(COMPONENTS_COMMON,
                       real=COMPONENTS_COMMON['real'] + ['stix2.parsing', 'stix2.base', 'stix2.properties', 'stix2.versioning', 'stix2.datastore.memory',
                                                         'stix2.datastore.filesystem', 'tmpfs'],
-                      simulated=COMPONENTS_COMMON['simulated'] + ['in-flight / stored-byte / stream corruption', 'readdir order'])
+                      simulated=COMPONENTS_COMMON['simulated'] + ['in-flight / stored-byte / stream corruption', 'readdir order', 'file time stamps (disk-owned clock, plan-chosen granularity)'])
 
     # ------------------------------------------------------------------ generation
     def generate(self, rng, index, tier):
@@ -302,6 +302,10 @@ class C17(Profile):
                 out.append(dict(op, picks=op['picks'][:i] + op['picks'][i + 1:]))
         if op.get('gm'):
             out.append(dict(op, gm=False))
+        for i, pk in enumerate(op.get('picks', [])):
+            if pk[1] == 'deep' and pk[2] % len(DEEP_LEVELS) > 0:
+                # the same site, one step less deep
+                out.append(dict(op, picks=op['picks'][:i] + [[pk[0], 'deep', pk[2] % len(DEEP_LEVELS) - 1]] + op['picks'][i + 1:]))
         return out
 
     # ------------------------------------------------------------------ execution
@@ -313,6 +317,7 @@ class C17(Profile):
         self.world = world
         self.allowed = (stix2.exceptions.STIXError, ValueError, TypeError)
         self.shape0 = world.reg.shape()
+        self.reg_base = world.reg.take()
         self.mkeys = set()
         self.fkeys = set()
         for i, op in enumerate(plan['ops']):
@@ -380,10 +385,9 @@ class C17(Profile):
         return 'store'
 
     def atomic_registry(self, entry):
-        diff = self.world.reg.diff()
-        # the world's own registrations (x-sim-widget) are part of its baseline
-        own = ('x-sim-widget', self.sw.TL_A, self.sw.TL_B) + getattr(self, 'late_names', ())
-        diff = [d for d in diff if d[2] not in own]
+        # baseline = the maps after the world's and the run's own successful registrations (x-sim-widget, the two toplevel
+        # extensions, late_registered types): losing or replacing one of THOSE is a change like any other
+        diff = self.world.reg.diff_maps(self.reg_base, self.world.reg.take())
         self.world.probe('atomicity_checked_registry')
         if diff:
             raise Violation('failure-atomicity', 'C17.registry-changed/%s' % entry, dict(diff=diff[:5]))
@@ -520,7 +524,18 @@ class C17(Profile):
             return
         cls = r.value
         self.shape0 = world.reg.shape()
-        self.late_names = getattr(self, 'late_names', ()) + (T,)
+        self.reg_base = world.reg.take()
+        if v21 and op['n'] % 3 == 0:
+            # a construction of a TYPE that must fail: extension_name= names an extension that is registered already
+            dup = call(lambda: (s.v21.CustomObservable if sco else s.v21.CustomObject)(T + '-b', props, extension_name=self.sw.TL_A)(
+                type('LateB', (object,), {})) if not sco else
+                s.v21.CustomObservable(T + '-b', props, ['name'], extension_name=self.sw.TL_A)(type('LateB', (object,), {})))
+            world.probe('failing_type_registration')
+            if not dup.ok:
+                self.atomic_registry('failed_registration')
+            else:
+                self.reg_base = world.reg.take()
+                self.shape0 = world.reg.shape()
         bad, desc = corrupt(base, [tuple(p) for p in op['picks']])
         if any(d['kind'] == 'deep' for d in desc) or bad.get('type') != T:
             bad, desc = base, []
